@@ -59,6 +59,8 @@ pub fn run(case: &Value, ctx: &Ctx) -> Outcome {
     // sparse spectra: most mirror pairs are zero on both sides (an entry that must fold to 0, not to the fill)
     inputs.push(("sparse", (0..n).map(|p| if p % 3 == 1 { (p + 2) as f64 } else { 0.0 }).collect(), 0.0));
     inputs.push(("all-zero", vec![0.0; n], 0.0));
+    // +inf and -inf in mirror positions (their sum is NaN - a VALUE, not the fill), and a NaN cell
+    inputs.push(("nonfinite", (0..n).map(|p| if p == 0 { f64::INFINITY } else if p + 1 == n && n > 1 { f64::NEG_INFINITY } else if p == 1 && n > 3 { f64::NAN } else { (p + 1) as f64 }).collect(), 0.0));
     if hist.len() == 1 {
         let pool = [-0.0, 5e-324, -2.5e-310, 1e300, -1e300, 1.0 / 3.0, 123456.789, f64::MAX / 4.0];
         // not bit-exact: averaging a self-mirrored diagonal cell as 0.5*x + 0.5*x underflows for the
@@ -93,7 +95,7 @@ pub fn run(case: &Value, ctx: &Ctx) -> Outcome {
 
     // the binary: a single fold, optionally of the mirrored input
     if hist == ["fold"] || hist == ["mirror", "fold"] {
-        for which in [0usize, 2] {
+        for which in [0usize, 2, 4] {
         let x0 = &inputs[which].1;
         let fed = if hist.len() == 2 { mirror(&shape, x0) } else { x0.clone() };
         let text = cli::write_text(&shape, &fed, 0);
